@@ -1042,12 +1042,10 @@ def i_check(it, args, kw):
     if not isinstance(c, (bool, SBool)):
         c = it.truth(c)
     for pred in it.ex.exclusions.get(label, ()):
-        # known-finding input class: the obligation is re-proved outside that class
-        import inspect
-        names = [n for n in inspect.signature(pred).parameters]
-        if all(n in it.ex.input_values for n in names):
-            k = M.as_bool_value(it, it.call(pred, [], {n: it.ex.input_values[n] for n in names}))
-            c = M.or_values(it, k, c)
+        # known-finding input class (a predicate over the dict of named inputs): the
+        # obligation is re-proved outside that class
+        k = M.as_bool_value(it, it.call(pred, [dict(it.ex.input_values)], {}))
+        c = M.or_values(it, k, c)
     it.ex.check(c if isinstance(c, bool) else c.t, label)
 
 
